@@ -195,6 +195,14 @@ REFINE_OF = {
 }
 
 
+COMPOSE_OF = {
+    "C01": r"compose_(C01_|guards_|align_|vocabulary)",
+    "C03": r"compose_C05_",
+    "C05": r"compose_C05_",
+    "C11": r"compose_C11_",
+    "C12": r"compose_C11_",
+    "C14": r"compose_C14_",
+}
 READER_OF = {
     "C04": r"Reader_(open$|.*provenance|example)",
     "C19": r"Reader_(frame|open_is_rp_open)",
@@ -233,6 +241,8 @@ def collect_obligations(ctx, vfile):
     for i, n in enumerate(names):
         if vfile == "Properties_gen.v" and not n.startswith(ctx.prop + "_"):
             continue      # the file holds the generated-model theorems of several properties; each check lists its own
+        if vfile == "Properties_compose.v" and not re.match(COMPOSE_OF.get(ctx.prop, "^$"), n):
+            continue      # cross-layer corollaries: each check lists those about its property
         if vfile == "Properties_reader.v" and not re.match(READER_OF.get(ctx.prop, "^$"), n):
             continue      # byte-level reader model: provenance (C04), no write path (C19), FSR window (C01), termination (C10)
         if vfile == "Properties_refine.v" and not re.match(REFINE_OF.get(ctx.prop, "^$"), n):
